@@ -335,6 +335,55 @@ func init() {
 		"math/bits.Len16": bitsLen(16),
 		"math/bits.Len8":  bitsLen(8),
 		"unique.Make": uniqueMake,
+		"github.com/IrineSistiana/gopool.Go": func(e *Engine, s *State, f *Frame, fn *ssa.Function, args []Value, retIdx int, advance bool) (Value, bool) {
+			fv := args[0].(*FuncV)
+			if fv.Fn == nil {
+				e.fail(s, "panic", "gopool.Go(nil)")
+			}
+			if len(s.gs) >= 12 {
+				e.errf("more than 12 goroutines")
+			}
+			e.usedModels = true
+			ng := &Goroutine{id: len(s.gs)}
+			ng.frames = []*Frame{e.newFrame(fv.Fn, nil, fv.Bindings, -1)}
+			s.gs = append(s.gs, ng)
+			return nil, true
+		},
+		rtPkg + "PreemptSync": func(e *Engine, s *State, f *Frame, fn *ssa.Function, args []Value, retIdx int, advance bool) (Value, bool) {
+			s.preemptSync = true
+			return nil, true
+		},
+		rtPkg + "AllowMainBlock": func(e *Engine, s *State, f *Frame, fn *ssa.Function, args []Value, retIdx int, advance bool) (Value, bool) {
+			s.ghost["@allow-main-block"] = 1
+			return nil, true
+		},
+		rtPkg + "IsReleasedPtr": func(e *Engine, s *State, f *Frame, fn *ssa.Function, args []Value, retIdx int, advance bool) (Value, bool) {
+			iv := args[0].(*IfaceV)
+			if iv.T == nil {
+				return e.c.False, true
+			}
+			p, ok := iv.V.(*Pointer)
+			if !ok || p.IsNil() {
+				return e.c.False, true
+			}
+			return e.c.Bool(s.obj(p.Obj).Released), true
+		},
+		rtPkg + "Redirect": func(e *Engine, s *State, f *Frame, fn *ssa.Function, args []Value, retIdx int, advance bool) (Value, bool) {
+			name := e.tagOf(args[0])
+			iv := args[1].(*IfaceV)
+			if s.redirects == nil {
+				s.redirects = map[string]*FuncV{}
+			} else {
+				n := make(map[string]*FuncV, len(s.redirects)+1)
+				for k, v := range s.redirects {
+					n[k] = v
+				}
+				s.redirects = n
+			}
+			s.redirects[name] = iv.V.(*FuncV)
+			e.usedModels = true
+			return nil, true
+		},
 		"sort.Slice":  sortSlice,
 		"sort.SliceStable": sortSlice,
 		"github.com/puzpuzpuz/xsync/v3.NewMapOf":                xsyncNew,
